@@ -31,6 +31,7 @@ type Case struct {
 	NoMetaDir  bool     `json:"no_metadata_directory,omitempty"`
 	Output     string   `json:"output,omitempty"` // silent | one-line | multi-line
 	TwoSigners bool     `json:"two_signers,omitempty"`
+	OddNames   bool     `json:"odd_names,omitempty"` // product names with a comma and a space, content with CR LF line endings
 	Tamper     string   `json:"tamper,omitempty"`
 	What       string   `json:"what,omitempty"`
 	Link       []string `json:"link,omitempty"`
@@ -38,7 +39,7 @@ type Case struct {
 }
 
 var tamperings = []string{"none", "product-byte-changed", "product-added", "product-removed", "link-digest-edited", "link-resigned-by-foreign-key", "link-deleted",
-	"layout-field-edited", "layout-resigned-by-foreign-key", "wrong-layout-key", "extra-layout-key-that-did-not-sign", "layout-expired", "two-keys-both-signed"}
+	"layout-field-edited", "layout-resigned-by-foreign-key", "wrong-layout-key", "extra-layout-key-that-did-not-sign", "layout-expired", "two-keys-both-signed", "product-line-endings-changed"}
 
 func sh(dir string, args ...string) (int, string) {
 	cmd := exec.Command(cli(), args...)
@@ -70,12 +71,21 @@ type chain struct {
 
 func stepName(i int) string { return fmt.Sprintf("step%d", i+1) }
 
+// srcName is the directory the steps work on; with OddNames the path given to -m/-p/-l itself holds a comma and a space.
+func srcName(cs Case) string {
+	if cs.OddNames {
+		return "s,r c"
+	}
+	return "src"
+}
+
 // produce carries out the supply chain through CLI invocations only (plus the layout text written by the harness).
 func produce(base string, cs Case) *chain {
 	ch := &chain{dir: gen.FreshDir(base, "chain")}
 	ch.proj = gen.FreshDir(ch.dir, "proj")
-	os.MkdirAll(filepath.Join(ch.proj, "src"), 0o755)
-	os.WriteFile(filepath.Join(ch.proj, "src", "seed"), []byte("seed\n"), 0o644)
+	src := srcName(cs)
+	os.MkdirAll(filepath.Join(ch.proj, src), 0o755)
+	os.WriteFile(filepath.Join(ch.proj, src, "seed"), []byte("seed\n"), 0o644)
 	ch.links = ch.proj
 	if !cs.NoMetaDir {
 		ch.links = gen.FreshDir(ch.dir, "meta")
@@ -90,7 +100,7 @@ func produce(base string, cs Case) *chain {
 			a = append(a, "-d", ch.links)
 		}
 		if cs.Lstrip {
-			a = append(a, "-l", "src/")
+			a = append(a, "-l", src+"/")
 		}
 		if cs.DSSE {
 			a = append(a, "--use-dsse")
@@ -107,19 +117,22 @@ func produce(base string, cs Case) *chain {
 	out := map[string]string{"": "", "silent": "", "one-line": "echo built;", "multi-line": "printf 'line1\\nline2\\n\\ttab\\n'; echo err >&2;"}[cs.Output]
 	for i, mode := range cs.Modes {
 		edit := fmt.Sprintf("echo content-%d > src/file%d", i+1, i+1)
+		if cs.OddNames {
+			edit = fmt.Sprintf("printf 'content-%d\\r\\nsecond line\\r\\n' > '%s/file%d'; printf 'x\\n' > '%s/notes,v%d .txt'", i+1, src, i+1, src, i+1)
+		}
 		var rc int
 		var o string
 		if mode == "run" {
 			args := append([]string{"run"}, common(i)...)
-			args = append(args, "-m", "src", "-p", "src", "--", "sh", "-c", out+edit)
+			args = append(args, "-m", src, "-p", src, "--", "sh", "-c", out+edit)
 			rc, o = sh(ch.proj, args...)
 		} else {
 			args := append([]string{"record", "start"}, common(i)...)
-			rc, o = sh(ch.proj, append(args, "-m", "src")...)
+			rc, o = sh(ch.proj, append(args, "-m", src)...)
 			if rc == 0 {
 				exec.Command("sh", "-c", "cd "+ch.proj+" && "+edit).Run()
 				args = append([]string{"record", "stop"}, common(i)...)
-				rc, o = sh(ch.proj, append(args, "-p", "src")...)
+				rc, o = sh(ch.proj, append(args, "-p", src)...)
 			}
 		}
 		if rc != 0 {
@@ -128,7 +141,7 @@ func produce(base string, cs Case) *chain {
 		}
 	}
 	// the layout text is written by the harness and signed with `in-toto sign`
-	prefix := "src/"
+	prefix := src + "/"
 	if cs.Lstrip {
 		prefix = ""
 	}
@@ -141,6 +154,9 @@ func produce(base string, cs Case) *chain {
 			mats = [][]string{{"MATCH", "*", "WITH", "PRODUCTS", "FROM", stepName(i - 1)}, {"DISALLOW", "*"}}
 		}
 		prods := [][]string{{"CREATE", prefix + fmt.Sprintf("file%d", i+1)}, {"MATCH", "*", "WITH", "MATERIALS", "FROM", stepName(i)}, {"DISALLOW", "*"}}
+		if cs.OddNames {
+			prods = append([][]string{{"CREATE", prefix + fmt.Sprintf("notes,v%d .txt", i+1)}}, prods...)
+		}
 		st := gen.Step(stepName(i), 1, []string{k.ID}, mats, prods)
 		if cs.Cert {
 			st.PubKeys = []string{}
@@ -154,6 +170,9 @@ func produce(base string, cs Case) *chain {
 	ch.prodNames = []string{"seed"}
 	for i := range cs.Modes {
 		ch.prodNames = append(ch.prodNames, fmt.Sprintf("file%d", i+1))
+		if cs.OddNames {
+			ch.prodNames = append(ch.prodNames, fmt.Sprintf("notes,v%d .txt", i+1))
+		}
 	}
 	insp := gen.Inspection("final", []string{"true"},
 		[][]string{{"REQUIRE", prefix + "file1"}, {"MATCH", "*", "WITH", "PRODUCTS", "FROM", last}, {"DISALLOW", "*"}}, [][]string{{"ALLOW", "*"}})
@@ -196,11 +215,11 @@ func tamper(base string, ch *chain, cs Case) (layout, links string, keyFiles []s
 	vdir = gen.FreshDir(t, "verify")
 	pdir := vdir
 	if !cs.Lstrip {
-		pdir = filepath.Join(vdir, "src")
+		pdir = filepath.Join(vdir, srcName(cs))
 		os.MkdirAll(pdir, 0o755)
 	}
 	for _, n := range ch.prodNames {
-		gen.CopyFile(filepath.Join(ch.proj, "src", n), filepath.Join(pdir, n))
+		gen.CopyFile(filepath.Join(ch.proj, srcName(cs), n), filepath.Join(pdir, n))
 	}
 	keyFiles = []string{pubFile("p256")}
 	if cs.TwoSigners {
@@ -227,6 +246,17 @@ func tamper(base string, ch *chain, cs Case) (layout, links string, keyFiles []s
 		keyFiles = []string{pubFile("p256"), pubFile("rsa2048")}
 	case "product-byte-changed":
 		os.WriteFile(filepath.Join(pdir, "file1"), []byte("Content-1\n"), 0o644)
+		accept = false
+	case "product-line-endings-changed":
+		// only the line endings differ from what the step recorded (verify runs without --normalize-line-endings)
+		b, _ := os.ReadFile(filepath.Join(pdir, "file1"))
+		var nb []byte
+		if bytes.Contains(b, []byte("\r\n")) {
+			nb = bytes.ReplaceAll(b, []byte("\r\n"), []byte("\n"))
+		} else {
+			nb = bytes.ReplaceAll(b, []byte("\n"), []byte("\r\n"))
+		}
+		os.WriteFile(filepath.Join(pdir, "file1"), nb, 0o644)
 		accept = false
 	case "product-added":
 		os.WriteFile(filepath.Join(pdir, "intruder"), []byte("x\n"), 0o644)
@@ -341,6 +371,9 @@ func optTag(cs Case) string {
 	}
 	if cs.TwoSigners {
 		o = append(o, "two-signers")
+	}
+	if cs.OddNames {
+		o = append(o, "odd-names-and-crlf-content")
 	}
 	if len(o) == 0 {
 		return "default-options"
@@ -530,7 +563,7 @@ func enumerate(thorough bool, emit func(Case)) {
 		modeSets = append(modeSets, []string{"run", "record", "run"}, []string{"record", "run", "record"}, []string{"run", "run", "record"}, []string{"record", "run", "run"})
 	}
 	opts := []Case{{}, {DSSE: true}, {Cert: true}, {Lstrip: true}, {NoMetaDir: true}, {Output: "one-line"}, {Output: "multi-line"}, {TwoSigners: true},
-		{DSSE: true, Output: "multi-line"}, {DSSE: true, Cert: true}, {DSSE: true, TwoSigners: true}, {Lstrip: true, NoMetaDir: true}}
+		{DSSE: true, Output: "multi-line"}, {DSSE: true, Cert: true}, {DSSE: true, TwoSigners: true}, {Lstrip: true, NoMetaDir: true}, {OddNames: true}, {OddNames: true, Lstrip: true}, {OddNames: true, DSSE: true}}
 	if thorough {
 		for _, d := range []bool{false, true} {
 			for _, l := range []bool{false, true} {
@@ -649,7 +682,7 @@ func replay(c *mcx.Ctx, raw json.RawMessage) (string, string) {
 func init() {
 	mcx.Register(&mcx.Driver{
 		ID: "C20", Run: run, Replay: replay,
-		Rule: "histories of CLI invocations of the binary built from the current tree: supply chains of 1..3 steps, each step carried out with `run` or with `record start` / edit / `record stop` (all mode sequences up to 2 steps, uniform ones for 3; thorough: more), under 12 option sets (default, --use-dsse, --cert, --lstrip-paths, no --metadata-directory, one-line and multi-line command output, two layout signers via `sign` twice, and combinations; thorough: the full product of five options), layout signed with `in-toto sign`; then every single tampering of 13 (none, product byte changed / added / removed, link digest edited / re-signed by a foreign key / deleted, layout field edited / re-signed by a foreign key, wrong layout key, extra layout key that did not sign, expired layout, second key supplied) followed by `verify`; " +
+		Rule: "histories of CLI invocations of the binary built from the current tree: supply chains of 1..3 steps, each step carried out with `run` or with `record start` / edit / `record stop` (all mode sequences up to 2 steps, uniform ones for 3; thorough: more), under 15 option sets (default, product names with a comma and a space plus CR LF content, --use-dsse, --cert, --lstrip-paths, no --metadata-directory, one-line and multi-line command output, two layout signers via `sign` twice, and combinations; thorough: the full product of five options), layout signed with `in-toto sign`; then every single tampering of 14 (none, product line endings changed only, product byte changed / added / removed, link digest edited / re-signed by a foreign key / deleted, layout field edited / re-signed by a foreign key, wrong layout key, extra layout key that did not sign, expired layout, second key supplied) followed by `verify`; " +
 			"oracle: exit status 0 <=> the library called in-process on the very same files returns nil, honest => 0, tampered => non-zero, links are at the names the verifier globs for, no preliminary link is left; separately `sign --verify` x {right key, public key, wrong key, tampered file} x wrappers, `key id` / `key layout` for every file of the key pool, `match-products` for the 81 combinations of two link products and two local files. states = produced chains, transitions = CLI invocations.",
 		Assumptions: []string{"the CLI is built with plain `go build` from /repo (no overlay)", "observations are compared after replacing scratch paths"},
 		Workers:     16,
